@@ -96,7 +96,7 @@ fn run_case(sh: &mut Shard, case: u64, rng: &mut Rng, alias: u16) {
     let payload = rng.bytes(wlen);
     let seed = rng.u64();
     let scenario = json!({"case": case, "mode": mode, "alias": alias, "cmd_errors": cmd_errors, "busy_forever": busy_forever, "write_word": wword, "write_len": wlen});
-    sh.case(Some(fnv_mix(fnv_mix(case, alias as u64), mode)));
+    sh.case(Some(fnv_mix(fnv_mix(fnv_mix(0xC14C14, case), alias as u64), mode)));
     sh.count(&format!("mode.{}", ["set_alias", "generic_write", "set_alias_ref"][mode as usize]));
     sh.count(&format!("cmd_errors.{cmd_errors}"));
 
